@@ -29,8 +29,9 @@ Menu == MenuOf("atomic", {"none", "true", "int", "bigint", "float", "str", "byte
         \cup MenuOf("copyreg", {"re_pattern", "re_pattern_bytes", "union_type"}, FALSE)
         \cup MenuOf("copyreg", {"complex"}, TRUE)
 Wraps == {"bare", "list", "attr", "shared", "tuple_key"}
-Leaf == {[t |-> "leaf", kind |-> m.kind, item |-> m.item, fb |-> m.fb, wrap |-> w, op |-> "rp", remote |-> rm] :
-           m \in Menu, w \in Wraps, rm \in BOOLEAN}
+\* after = "fail": the round trip happens on a thread whose previous remote_pickle.loads raised
+Leaf == {[t |-> "leaf", kind |-> m.kind, item |-> m.item, fb |-> m.fb, wrap |-> w, op |-> "rp", remote |-> rm, after |-> af] :
+           m \in Menu, w \in Wraps, rm \in BOOLEAN, af \in {"none", "fail"}}
 
 (* ------------------------------ object graphs ------------------------------ *)
 RECURSIVE AncSelf(_, _)
@@ -48,7 +49,12 @@ Ent(tp, n, X, i) ==
   IN [j \in 1..Len(tk) |-> [k |-> "k" \o NatStr(tk[j]), to |-> tk[j]]]
      \o [j \in 1..Len(xs) |-> [k |-> "x" \o NatStr(xs[j]), to |-> xs[j]]]
 Mk(n, tp, kind, X, noss, nods) ==
-  [g |-> [i \in 1..n |-> [kind |-> kind[i], ent |-> Ent(tp, n, X, i), ss |-> i # noss, ds |-> i # nods]], tp |-> tp]
+  [g |-> [i \in 1..n |-> [kind |-> kind[i], ent |-> Ent(tp, n, X, i), ss |-> i # noss, ds |-> i # nods, fs |-> "no"]], tp |-> tp]
+\* one opt-in leaf whose __getstate__ returns a falsy state that is not None: {} | 0 | () | '' | False
+FsKinds == {"d0", "i0", "t0", "s0", "b0"}
+WithFs(s, i, k) == [s EXCEPT !.g[i].fs = k, !.g[i].ds = (k = "d0")]
+FalsyOf(S) == UNION {{WithFs(s, i, k) : i \in {x \in 1..Len(s.g) : s.g[x].kind = "opt" /\ s.g[x].ent = <<>> /\ s.g[x].ss /\ s.g[x].ds},
+                                        k \in FsKinds} : s \in S}
 \* containers hold something; the node without __setstate__ / with a non-dict state is an opt-in one
 ShapeOK(n, tp, kind, X, noss, nods) ==
   /\ \A i \in 1..n : kind[i] = "cont" => (\E c \in 2..n : tp[c] = i) \/ (\E b \in 1..n : <<i, b>> \in X)
@@ -102,6 +108,8 @@ C15Seq3(S, maxat) == UNION {Seq3Of(s, maxat) : s \in {x \in S : HasOpt(x)}}
 \* ---- C13: graphs without opt-in objects under both flags; opt-in graphs with remote=False and under the standard operations ----
 C13Graphs(Splain, Sopt, Sstd) == UNION {
   {Graph(s, "rp", rm, FALSE, FALSE, <<Ld(<<>>)>>, FALSE) : s \in Splain, rm \in BOOLEAN},
+  \* plain data on a thread whose previous loads raised (truncated stream)
+  {Graph(s, "rp", rm, FALSE, FALSE, <<[patch |-> <<>>, fail |-> "trunc", at |-> 0, thr |-> 1], Ld(<<>>)>>, FALSE) : s \in Splain, rm \in BOOLEAN},
   {Graph(s, "rp", FALSE, mk, sn, <<Ld(<<>>)>>, FALSE) : s \in {x \in Sopt : HasOpt(x)}, mk \in BOOLEAN, sn \in BOOLEAN},
   {Graph(s, o, FALSE, mk, sn, <<Ld(<<>>)>>, FALSE) : s \in {x \in Sstd : HasOpt(x)}, o \in {"pickle", "deepcopy", "mp"}, mk \in BOOLEAN, sn \in {TRUE}}}
 
@@ -116,17 +124,18 @@ S_plain3(u)  == Shapes(1..3, {"plain", "cont"}, 1, FALSE)
 S_plain4(u)  == Shapes(1..4, {"plain", "cont"}, 2, FALSE)
 S_opt2(u)    == Shapes(1..2, All3, 1, TRUE)
 S_noflag3(u) == Shapes(1..3, All3, 1, FALSE)
+S_tree3(u)   == Shapes(1..3, All3, 0, FALSE)                        \* <= 3 nodes, no extra reference, no flags
 S_five(u)    == Shapes({5}, {"opt", "cont"}, 0, FALSE)              \* 5-node trees of opt-in objects and containers
 
 ScnSet(name) ==
-  CASE name = "C13_quick"    -> UNION {Cls(3), Leaf, C13Graphs(S_plain3(0), S_small(0), S_noflag3(0))}
+  CASE name = "C13_quick"    -> UNION {Cls(3), Leaf, C13Graphs(S_plain3(0), UNION {S_noflag3(0), S_opt2(0)}, S_noflag3(0))}
     [] name = "C13_thorough" -> UNION {Cls(4), Leaf, C13Graphs(S_plain4(0), UNION {S_small(0), S_fourx(0)}, UNION {S_small(0), S_fourx(0)})}
-    [] name = "C14_quick"    -> C14Of(UNION {S_small(0), S_four(0)}, BOOLEAN)
-    [] name = "C14_thorough" -> C14Of(UNION {S_three2(0), S_fourf(0), S_five(0)}, BOOLEAN)
+    [] name = "C14_quick"    -> C14Of(UNION {S_small(0), S_four(0), FalsyOf(S_tree3(0))}, BOOLEAN)
+    [] name = "C14_thorough" -> C14Of(UNION {S_three2(0), S_fourf(0), S_five(0), FalsyOf(UNION {S_noflag3(0), S_four(0)})}, BOOLEAN)
     [] name = "C15_quick"    -> UNION {C15P(S_small(0), TRUE), C15P(S_four(0), FALSE), C15Seq(S_opt2(0), 2)}
     [] name = "C15_thorough" -> UNION {C15P(UNION {S_three2(0), S_fourx(0)}, TRUE), C15Seq(S_noflag3(0), 4), C15Seq(S_opt2(0), 3), C15Seq3(S_opt2(0), 2)}
     [] name = "tiny"         -> C14Of(S_opt2(0), {FALSE})
-    [] name = "wit"          -> UNION {Cls(2), {x \in Leaf : x.wrap = "bare"}, C13Graphs({}, S_opt2(0), {}), C15Seq(S_opt2(0), 1)}
+    [] name = "wit"          -> UNION {Cls(2), {x \in Leaf : x.wrap = "bare"}, C13Graphs({}, S_opt2(0), {}), C15Seq(S_opt2(0), 1), C14Of(FalsyOf(S_opt2(0)), {FALSE})}
     [] name = "env"          -> Rng(JsonDeserialize(IOEnv.SCN_FILE))     \* hand-picked scenarios (replays, smoke tests)
 \* the scenario set is named by the environment variable RP_SET and enumerated once, by the initial predicate
 MCInit == InitWith(ScnSet(IOEnv.RP_SET))
